@@ -80,6 +80,9 @@ def configs(tier):
     add('order1', 1, 1, 'CubicSpline')
     add('order1', 2, 2, 'Gaussian')
     add('order1', 1, 3, 'CubicSpline')
+    # periodic ghosts are sources of order1 too (their density is computed by
+    # the first group, real=False)
+    add('order1', 1, 2, 'CubicSpline', periodic=True)
     add('shepard', 2, 2, 'CubicSpline', api='sphe')
     add('sph', 1, 2, 'Gaussian', api='sphe')
     if tier != 'quick':
@@ -100,6 +103,20 @@ def configs(tier):
     return c
 
 
+def reset_group_names(cfg):
+    """pysph numbers unnamed Groups with a process-wide counter and the number
+    ends up in the generated source: without this every Interpolator of a run
+    is a new ~10 s compilation.  Restart the numbering before each evaluator is
+    created, from a base of its own per configuration (two configurations that
+    differ only in `dim` would otherwise generate the SAME module in two
+    processes at the same time; compyle's build lock gives up after 90 s)."""
+    import itertools
+    import pysph.sph.equation as EQ
+    allc = configs('thorough')
+    base = 100 * (1 + allc.index(cfg)) if cfg in allc else 0
+    EQ.group_counter = itertools.count(base)
+
+
 def kernel_obj(name, dim):
     from pysph.base import kernels
     return getattr(kernels, name)(dim=dim)
@@ -112,7 +129,8 @@ def r6(v):
     return float(v)
 
 
-def gen_array(rng, cfg, name, n, h0, region, lin, const, has, tagged, prefill=0.0):
+def gen_array(rng, cfg, name, n, h0, region, lin, const, has, tagged, prefill=0.0,
+              norho=False):
     dim = cfg['dim']
     lo, hi = region
     pos = [[0.0] * n for _ in range(3)]
@@ -142,6 +160,11 @@ def gen_array(rng, cfg, name, n, h0, region, lin, const, has, tagged, prefill=0.
         for i in range(n):
             if rng.random() < 0.25:
                 tag[i] = 1
+    if norho:
+        # order1 computes the density itself (SummationDensity, first group):
+        # an array built WITHOUT rho (get_particle_array leaves it 0.0) is
+        # valid input
+        rho = None
     sp = {'name': name, 'x': pos[0], 'y': pos[1], 'z': pos[2], 'h': h,
           'm': m, 'rho': rho, 'props': props, 'tag': tag}
     if rng.random() < prefill:
@@ -168,7 +191,8 @@ def gen_psets(rng, narr):
     return out
 
 
-def gen_arrays(rng, cfg, lin, const, psets, prefill=0.0, small=False):
+def gen_arrays(rng, cfg, lin, const, psets, prefill=0.0, small=False,
+               force_tagged=None, force_norho=None):
     dim, narr = cfg['dim'], cfg['narr']
     ntot = {1: rng.randint(8, 30), 2: rng.randint(30, 80),
             3: rng.randint(50, 110)}[dim]
@@ -199,12 +223,20 @@ def gen_arrays(rng, cfg, lin, const, psets, prefill=0.0, small=False):
     sizes = [max(3, ntot // narr + rng.randint(-2, 2)) for _ in range(narr)]
     # which arrays carry 'q' / 'r' is fixed per history (`psets`): rebinding
     # demands arrays with the same properties as before
-    tagged = (not cfg['periodic']) and rng.random() < 0.2
+    tagged = (not cfg['periodic']) and rng.random() < (
+        0.4 if cfg['method'] == 'order1' else 0.2)
+    if force_tagged is not None:
+        tagged = force_tagged
+    # order1 only: arrays created without rho, in about half the histories
+    norho = cfg['method'] == 'order1' and rng.random() < 0.5
+    if force_norho is not None:
+        norho = force_norho and cfg['method'] == 'order1'
     out = []
     for a in range(narr):
         region = (edges[a], edges[a + 1]) if layout == 'halves' else (0.0, 1.0)
         sp = gen_array(rng, cfg, NAMES[a], sizes[a], h0, region, lin, const,
-                       {'q': psets['q'][a], 'r': psets['r'][a]}, tagged, prefill)
+                       {'q': psets['q'][a], 'r': psets['r'][a]}, tagged, prefill,
+                       norho)
         out.append(sp)
     # make the bounding box span the unit box in every used dimension (the
     # Interpolator infers `dim` from it); keep these two particles real
@@ -219,11 +251,74 @@ def gen_arrays(rng, cfg, lin, const, psets, prefill=0.0, small=False):
     return out
 
 
+ND_SHAPES = [[2, 2], [2, 3], [3, 2], [3, 3], [2, 4], [4, 3], [2, 2, 2], [2, 3, 2],
+             [3, 2, 2], [2, 2, 3], [1, 4], [3, 1, 2], [2, 1, 3, 1]]
+
+
+def gen_layout(rng, shape, kind=None):
+    """memory layout of one coordinate array of logical shape `shape`: the order
+    of the axes in memory (`perm`, slowest first), a step per axis (>1: gaps, a
+    strided slice of a larger array), axes stored backwards (`neg`: negative
+    strides) and a number of unused leading elements"""
+    nd = len(shape)
+    ident = list(range(nd))
+    if kind is None:
+        kind = rng.choice(['C', 'F', 'F', 'P', 'S', 'SF', 'N', 'mix'] if nd > 1
+                          else ['C', 'C', 'S', 'N'])
+    L = {'kind': kind, 'perm': ident, 'step': [1] * nd, 'neg': [], 'lead': 0}
+    if kind in ('F', 'SF'):
+        L['perm'] = ident[::-1]
+    if kind in ('P', 'mix'):
+        perm = ident[:]
+        while nd > 1 and perm == ident:
+            rng.shuffle(perm)
+        L['perm'] = perm
+    if kind in ('S', 'SF', 'mix'):
+        L['step'] = [rng.choice([1, 2, 3]) for _ in range(nd)]
+        L['step'][rng.randrange(nd)] = rng.choice([2, 3])
+        L['lead'] = rng.randrange(4)
+    if kind in ('N', 'mix'):
+        L['neg'] = sorted(set(rng.randrange(nd) for _ in range(rng.randint(1, nd))))
+    return L
+
+
+def strided(a, L):
+    """(view, mem, shape, strides, offset): a numpy array with the logical
+    contents of `a` laid out in the 1-D buffer `mem` as `L` says; strides and
+    offset in elements"""
+    shape = list(a.shape)
+    nd = len(shape)
+    strides = [0] * nd
+    cur = 1
+    for ax in reversed(L['perm']):
+        strides[ax] = cur * L['step'][ax]
+        cur = strides[ax] * shape[ax]
+    offset = L['lead']
+    total = L['lead'] + cur + 2
+    for ax in L['neg']:
+        offset += strides[ax] * (shape[ax] - 1)
+        strides[ax] = -strides[ax]
+    # unused memory holds a far-away coordinate, not a valid-looking one
+    mem = np.full(total, 777.0)
+    view = np.lib.stride_tricks.as_strided(mem[offset:], shape=shape,
+                                           strides=[8 * t for t in strides])
+    view[...] = a
+    if not np.array_equal(view, a):
+        raise SystemExit('harness: strided view does not hold the points')
+    return view, mem, shape, strides, offset
+
+
 def gen_points(rng, cfg, arrays, allow_grid=True):
     dim = cfg['dim']
     if allow_grid and cfg['api'] == 'interp' and rng.random() < 0.25:
         return {'kind': 'grid', 'num_points': rng.choice([8, 12, 20, 27])}
+    shape = None
     n = rng.randint(3, 9)
+    if cfg['api'] == 'interp' and rng.random() < 0.6:
+        # explicit points given as N-d arrays: result[idx] must belong to
+        # (x[idx], y[idx], z[idx]) whatever the memory layout of x, y, z
+        shape = list(rng.choice(ND_SHAPES))
+        n = int(np.prod(shape))
     pts = [[0.0] * n for _ in range(3)]
     lo, hi = (0.02, 0.98) if cfg['periodic'] else (-0.05, 1.05)
     for k in range(dim):
@@ -236,11 +331,16 @@ def gen_points(rng, cfg, arrays, allow_grid=True):
             pts[k][0] = a[key][j]
     if not cfg['periodic'] and rng.random() < 0.6:
         pts[0][1] = rng.choice([-3.0, 4.5])
-    shape = None
-    if n in (4, 6, 8, 9) and rng.random() < 0.4:
-        shape = {4: [2, 2], 6: [2, 3], 8: [2, 2, 2], 9: [3, 3]}[n]
-    return {'kind': 'explicit', 'x': pts[0], 'y': pts[1], 'z': pts[2],
-            'shape': shape}
+    out = {'kind': 'explicit', 'x': pts[0], 'y': pts[1], 'z': pts[2],
+           'shape': shape}
+    if cfg['api'] == 'interp':
+        sh = shape or [n]
+        if rng.random() < 0.7:
+            L = gen_layout(rng, sh)
+            out['layout'] = {key: L for key in 'xyz'}
+        else:       # x, y, z laid out differently
+            out['layout'] = {key: gen_layout(rng, sh) for key in 'xyz'}
+    return out
 
 
 def gen_interp_op(rng, cfg, partial=False):
@@ -273,7 +373,8 @@ def gen_interp_seq(rng, cfg):
     return ops
 
 
-def gen_case(rng, cfg, nops=None, psets=None, small=False, prefill=None):
+def gen_case(rng, cfg, nops=None, psets=None, small=False, prefill=None,
+             force_tagged=None, force_norho=None):
     lin = [rng.uniform(-1, 1), rng.uniform(-2, 2),
            rng.uniform(-2, 2) if cfg['dim'] > 1 else 0.0,
            rng.uniform(-2, 2) if cfg['dim'] > 2 else 0.0]
@@ -283,7 +384,8 @@ def gen_case(rng, cfg, nops=None, psets=None, small=False, prefill=None):
     if prefill is None:
         # arrays that arrive with a used temp_prop: in about half the histories
         prefill = rng.choice([0.0, 0.0, 0.5, 1.0])
-    arrays = gen_arrays(rng, cfg, lin, const, psets, prefill, small)
+    arrays = gen_arrays(rng, cfg, lin, const, psets, prefill, small,
+                        force_tagged, force_norho)
     case = {'cfg': cfg, 'lin': lin, 'const': const, 'psets': psets, 'arrays': arrays,
             'points': gen_points(rng, cfg, arrays), 'ops': []}
     cur = arrays
@@ -315,7 +417,8 @@ def gen_case(rng, cfg, nops=None, psets=None, small=False, prefill=None):
             cur = list(cur)
             cur[k] = new
         elif kind == 'newarrays':
-            cur = gen_arrays(rng, cfg, lin, const, psets, prefill, small)
+            cur = gen_arrays(rng, cfg, lin, const, psets, prefill, small,
+                             force_tagged, force_norho)
             ops.append({'op': 'newarrays', 'arrays': cur})
         elif kind == 'newpoints':
             ops.append({'op': 'newpoints',
@@ -355,6 +458,9 @@ def resize_spec(rng, sp, n, tag, lin):
     out = {'name': sp['name'], 'tag': list(tag), 'props': {}}
     for key in ('x', 'y', 'z', 'h', 'm', 'rho'):
         v = sp[key]
+        if v is None:
+            out[key] = None
+            continue
         out[key] = [v[i % len(v)] if i < len(v) else v[i % len(v)] * 1.0
                     for i in range(n)]
     # decorrelate repeated particles
@@ -374,7 +480,8 @@ def resize_spec(rng, sp, n, tag, lin):
 
 def make_pa(sp):
     from pysph.base.utils import get_particle_array
-    kw = {k: np.array(sp[k], dtype=float) for k in ('x', 'y', 'z', 'h', 'm', 'rho')}
+    kw = {k: np.array(sp[k], dtype=float) for k in ('x', 'y', 'z', 'h', 'm', 'rho')
+          if sp[k] is not None}
     pa = get_particle_array(name=sp['name'], **kw)
     for nm, v in sp['props'].items():
         pa.add_property(nm)
@@ -395,6 +502,8 @@ def set_in_place(pa, sp):
             [i for i, t in enumerate(sp['tag']) if t != 0]
     nreal = sum(1 for t in sp['tag'] if t == 0)
     for key in ('x', 'y', 'z', 'h', 'm', 'rho'):
+        if sp[key] is None:
+            continue        # not supplied: whatever the array holds stays
         arr = pa.get(key, only_real_particles=False)
         vals = [sp[key][i] for i in order]
         arr[:len(vals)] = vals
@@ -430,6 +539,10 @@ class Session:
         self.bstale = []        # the contract's view after each line: stale?
         self.bobs = []          # matching observations of the implementation
         self.domain = None
+        self.rlines = []        # driver lines of the flattening of the points
+        self.views = {}
+        self.expect_pts = None  # the points in logical order (None: as in the
+        #                         target array: automatic grid / moved points)
         if cfg['periodic']:
             from pysph.base.nnps import DomainManager
             kw = {}
@@ -445,6 +558,7 @@ class Session:
             self.label(pa)
         self.computes_on_points = 0
         pts = case['points']
+        reset_group_names(cfg)
         if cfg['api'] == 'interp':
             kw = {}
             if pts['kind'] == 'explicit':
@@ -455,6 +569,7 @@ class Session:
                                 domain_manager=self.domain,
                                 method=cfg['method'], **kw)
             self.label(self.ip.pa)
+            self.ravel_lines('construction')
             self.blines.append('B init arrays=%s pts=%d' % (
                 H.ilist(self.labels[id(a)] for a in self.srcs),
                 self.labels[id(self.ip.pa)]))
@@ -481,14 +596,42 @@ class Session:
         return len(self.objs)
 
     def points_kw(self, pts):
+        """keyword arguments for the constructor / set_interpolation_points;
+        remembers how each coordinate array lies in memory (for the model's
+        `ravel`) and the points in LOGICAL order: entry k of the spec's lists is
+        the point at the multi-index whose row-major index is k"""
         kw = {}
         d = self.cfg['dim']
+        self.views = {}
+        n = len(pts['x'])
+        self.expect_pts = [(pts['x'][i], pts['y'][i], pts['z'][i]) for i in range(n)]
         for key in 'xyz'[:d]:
             a = np.array(pts[key], dtype=float)
             if pts.get('shape'):
                 a = a.reshape(pts['shape'])
+            if pts.get('layout'):
+                L = pts['layout'][key]
+                a, mem, shape, strides, offset = strided(a, L)
+                self.views[key] = (mem, shape, strides, offset, L['kind'])
             kw[key] = a
+        # a coordinate that is not passed: zeros shaped like the others
+        self.expect_pts = [tuple(q[k] if k < d else 0.0 for k in range(3))
+                           for q in self.expect_pts]
         return kw
+
+    def ravel_lines(self, where):
+        """after the target particles were created from explicit arrays: the
+        model's `ravel` of each array as it lies in memory against the
+        coordinates of the target particles, in particle order"""
+        pa = self.ip.pa
+        for key, (mem, shape, strides, offset, kind) in sorted(self.views.items()):
+            line = 'R shape=%s strides=%s offset=%d buf=%s' % (
+                H.ilist(shape), ','.join(str(t) for t in strides), offset,
+                H.flist(mem.tolist()))
+            # (with a periodic domain the target array got ghosts appended)
+            got = pa.get(key, only_real_particles=False)[:pa.num_real_particles].tolist()
+            self.rlines.append((line, 'flat ' + H.flist(got),
+                                where + ' target particles: ' + key, kind))
 
     def equations(self):
         from pysph.tools import interpolator as I
@@ -513,6 +656,8 @@ class Session:
     def make_dest(self, pts):
         from pysph.base.utils import get_particle_array
         x = np.array(pts['x'], dtype=float)
+        self.expect_pts = [(pts['x'][i], pts['y'][i], pts['z'][i])
+                           for i in range(len(pts['x']))]
         hmax = max(float(a.h.max()) for a in self.srcs)
         pa = get_particle_array(name='interpolate', x=x,
                                 y=np.array(pts['y'], dtype=float),
@@ -584,6 +729,8 @@ class Session:
             for key in 'xyz'[:cfg['dim']]:
                 arr = pa.get(key, only_real_particles=False)
                 arr[:n] = [rng.uniform(lo, hi) for _ in range(n)]
+            # from now on the points are what the target array holds
+            self.expect_pts = None
             self.blines.append('B mutate o=%d' % self.labels[id(pa)])
             self.bobs.append(self.bind_obs())
             self.bstale.append(True)
@@ -614,6 +761,7 @@ class Session:
                 impl_call('set_interpolation_points', self.ip.set_interpolation_points,
                           **self.points_kw(op['points']))
                 self.label(self.ip.pa)
+                self.ravel_lines('set_interpolation_points')
                 self.blines.append('B setpts p=%d' % self.labels[id(self.ip.pa)])
             else:
                 self.dest = self.make_dest(op['points'])
@@ -626,6 +774,8 @@ class Session:
             self.bstale.append(False)
         elif kind == 'setdomain':
             self.computes_on_points = 0
+            self.expect_pts = None
+            self.views = {}
             impl_call('set_domain', self.ip.set_domain, tuple(op['bounds']), tuple(op['shape']))
             self.label(self.ip.pa)
             self.blines.append('B setpts p=%d' % self.labels[id(self.ip.pa)])
@@ -671,7 +821,15 @@ class Session:
         if self.cfg['api'] == 'interp':
             r = impl_call('interpolate', self.ip.interpolate, prop, comp)
             self.last_shape = list(np.shape(r))
-            return np.asarray(r, dtype=float).ravel().tolist()
+            # what the evaluator left per target particle, and the shape the
+            # Interpolator un-flattens it to
+            raw = self.ip.pa.get('prop', only_real_particles=False)
+            if self.cfg['method'] == 'order1':
+                raw = raw[comp::4]
+            self.last_raw = (raw[:self.ip.pa.num_real_particles].tolist(),
+                             [int(t) for t in np.atleast_1d(self.ip.shape)])
+            # the returned array listed in row-major order of its own shape
+            return [float(r[idx]) for idx in np.ndindex(*np.shape(r))]
         # SPHEvaluator: do what Interpolator.interpolate does around compute
         for a in self.srcs:
             data = a.get(prop, only_real_particles=False) \
@@ -846,6 +1004,23 @@ def observe(ses, op, res, where):
             H.flist(pre['old'].tolist())))
         out['expect'].append(('stage', where + ' temp_prop of source array %d' % a,
                               'temp ' + H.flist(s1['temp_prop']), None))
+    if cfg['api'] == 'interp':
+        # the un-flattening: per-particle values + self.shape -> returned array
+        raw, shp = ses.last_raw
+        out['lines'].append('U shape=%s flat=%s' % (H.ilist(shp), H.flist(raw)))
+        out['expect'].append(('unflatten', where + ' result un-flattened',
+                              'res ' + H.flist(res), None))
+        c('unflatten:%d-d' % len(shp))
+    # the points of the PROPERTY: entry i of the returned array (row-major) is
+    # about the i-th point the caller gave, in the caller's logical indexing
+    # (x[idx], y[idx], z[idx]) -- not about wherever target particle i ended up
+    exp_pts = ses.expect_pts
+    if exp_pts is not None and len(exp_pts) != nt:
+        out['fails'].append(('C14:%s:result-shape' % method,
+                             '%d target points, one per element of x' % len(exp_pts),
+                             '%d target particles' % nt))
+        return out
+    c('oracle-points:%s' % ('callers-arrays' if exp_pts is not None else 'target-array'))
     listed = nbr_lists(ses, narr, nt, narr)
     want_grad = method == 'order1'
     rhos = None
@@ -888,12 +1063,14 @@ def observe(ses, op, res, where):
             out['expect'].append((method, where + ' point %d' % i,
                                   'val ' + H.fbits(res[i]), None))
     # ---- the property itself, brute force, independent of the above
+    o1src = order1_sources(ses, srcs) if method == 'order1' else None
     for i in range(nt):
-        dpos = wrap_pos(cfg, (tgt['x'][i], tgt['y'][i], tgt['z'][i]))
+        pt = exp_pts[i] if exp_pts is not None else (tgt['x'][i], tgt['y'][i], tgt['z'][i])
+        dpos = wrap_pos(cfg, pt)
         hd = tgt['h'][i]
         got = res[i]
         if method == 'order1':
-            oracle_order1(ses, op, i, dpos, hd, srcs, tgt, got, out, c)
+            oracle_order1(ses, op, i, dpos, hd, o1src, tgt, got, out, c)
             continue
         con = brute(k, cfg, method, dpos, hd, srcs)
         fs = [f for (_, _, f) in con]
@@ -973,40 +1150,88 @@ def fail_key(ses, method, what):
     return 'C14:%s:%s' % (method, what)
 
 
-def oracle_order1(ses, op, i, dpos, hd, srcs, tgt, got, out, c):
+def order1_sources(ses, srcs):
+    """the source particles order1's sums range over, with the volume the METHOD
+    defines for them: V_j = m_j / rho_j with rho_j the summation density
+    rho_j = sum_k m_k W(r_jk, (h_j+h_k)/2) over ALL particles of all source
+    arrays (real or not: a Remote/ghost tagged particle is a source like any
+    other) -- with a periodic domain over the real particles and their periodic
+    images.  Computed here by brute force: order1 computes the density itself
+    (first group), the user's rho is not an input (it may be absent = 0.0) and
+    nothing is taken from the rho the implementation left in the arrays.
+    Returns a list of (pos, h, V, f)."""
+    cfg = ses.cfg
+    k = ses.kernel
+    sh = shifts_for(cfg)
+    P = []      # (pos, h, m, f) of every particle the sums range over
+    base = []   # index into P of the unshifted copy
+    for s in srcs:
+        for j in range(len(s['x'])):
+            if cfg['periodic'] and s['tag'][j] != 0:
+                continue
+            for t in sh:
+                if t == (0.0, 0.0, 0.0):
+                    base.append(len(P))
+                P.append(((s['x'][j] + t[0], s['y'][j] + t[1], s['z'][j] + t[2]),
+                          s['h'][j], s['m'][j], s['f'][j]))
+    if not P:
+        return []
+    X = np.array([q[0] for q in P])
+    Hh = np.array([q[1] for q in P])
+    rs = float(k.radius_scale)
+    rho = {}
+    for b in base:
+        pos, h, m, f = P[b]
+        r = np.sqrt(((X - np.array(pos)) ** 2).sum(axis=1))
+        near = np.nonzero(r <= rs * 0.5 * (h + Hh) * (1 + 1e-9) + 1e-300)[0]
+        tot = 0.0
+        for kk in near.tolist():
+            w, _ = kern(k, pos, P[kk][0], 0.5 * (h + P[kk][1]), False)
+            tot += P[kk][2] * w
+        rho[b] = tot
+    out = []
+    nsh = len(sh)
+    for idx, q in enumerate(P):
+        b = base[idx // nsh]        # images carry the density of their original
+        d = rho[b]
+        out.append((q[0], q[1], (q[2] / d) if d > 0.0 else float('inf'), q[3]))
+    return out
+
+
+def oracle_order1(ses, op, i, dpos, hd, o1src, tgt, got, out, c):
     """order1 reproduces a linear field and its gradient where the moment matrix
-    (brute force, from the densities the evaluator used) is well conditioned"""
+    (brute force, with the volumes the method defines: m / summation density)
+    is well conditioned, and the values it returns there are finite"""
     cfg = ses.cfg
     case = ses.case
-    if cfg['periodic']:
-        return
     dim = cfg['dim']
     n = dim + 1
     k = ses.kernel
     M = np.zeros((4, 4))
     b = np.zeros(4)
     fmax = 0.0
-    for s in srcs:
-        for j in range(len(s['x'])):
-            spos = (s['x'][j], s['y'][j], s['z'][j])
-            w, g = kern(k, dpos, spos, 0.5 * (hd + s['h'][j]), True)
-            if w == 0.0 and g == [0.0, 0.0, 0.0]:
-                continue
-            V = s['m'][j] / s['rho'][j]
-            xij = [dpos[t] - spos[t] for t in range(3)]
-            row0 = [w * V] + [-xij[t] * w * V for t in range(3)]
-            for cc in range(4):
-                M[0, cc] += row0[cc]
-            for r in range(3):
-                M[r + 1, 0] += g[r] * V
-                for t in range(3):
-                    M[r + 1, t + 1] += -xij[t] * g[r] * V
-            # right-hand side from the REQUESTED property's values
-            fj = s['f'][j]
-            fmax = max(fmax, abs(fj))
-            b[0] += fj * w * V
-            for r in range(3):
-                b[r + 1] += fj * g[r] * V
+    rs = float(k.radius_scale)
+    for (spos, hs, V, fj) in o1src:
+        hij = 0.5 * (hd + hs)
+        if max(abs(dpos[0] - spos[0]), abs(dpos[1] - spos[1]),
+               abs(dpos[2] - spos[2])) > rs * hij * (1 + 1e-9):
+            continue
+        w, g = kern(k, dpos, spos, hij, True)
+        if w == 0.0 and g == [0.0, 0.0, 0.0]:
+            continue
+        xij = [dpos[t] - spos[t] for t in range(3)]
+        row0 = [w * V] + [-xij[t] * w * V for t in range(3)]
+        for cc in range(4):
+            M[0, cc] += row0[cc]
+        for r in range(3):
+            M[r + 1, 0] += g[r] * V
+            for t in range(3):
+                M[r + 1, t + 1] += -xij[t] * g[r] * V
+        # right-hand side from the REQUESTED property's values
+        fmax = max(fmax, abs(fj))
+        b[0] += fj * w * V
+        for r in range(3):
+            b[r + 1] += fj * g[r] * V
     Mn = M[:n, :n]
     if not np.all(np.isfinite(Mn)) or abs(Mn[0, 0]) < 1e-3:
         c('oracle:order1-skipped-illconditioned')
@@ -1030,6 +1255,29 @@ def oracle_order1(ses, op, i, dpos, hd, srcs, tgt, got, out, c):
         if got != 0.0:
             out['fails'].append(('C14:order1:unused-component',
                                  '0.0 for comp %d in %d-D at point %d' % (comp, dim, i), repr(got)))
+        return
+    if cfg['periodic']:
+        # The ghosts the domain manager makes are the sources here and the
+        # density the first group computes for a ghost (from the ghosts within
+        # ITS range, one cell deep) is not that of its original, so the volumes
+        # differ from the periodic sums above.  What does not depend on the
+        # volumes (any finite positive ones): the value is finite, and a
+        # constant field is reproduced with zero gradient.
+        c('oracle:order1-periodic-finite')
+        if not math.isfinite(got):
+            out['fails'].append(('C14:order1:finite',
+                                 'a finite value for comp %d of %r at point %d (moment matrix '
+                                 'well conditioned: cond %.3g)' % (comp, op['prop'], i, cond),
+                                 repr(got)))
+            return
+        if op['prop'] == 'c':
+            want = case['const'] if comp == 0 else 0.0
+            c('oracle:order1-linear-reproduction')
+            tol = 1e-7 * (abs(case['const']) + 1.0) * (1.0 if comp == 0 else 1.0 / hd)
+            if not (abs(got - want) <= tol):
+                out['fails'].append(('C14:order1:linear-reproduction',
+                                     'comp %d of the constant field = %r at point %d (cond %.3g)'
+                                     % (comp, want, i, cond), repr(got)))
         return
     # any property: the value is the solution of the documented moment system
     # M (f, grad f) = sum_j f_j (W, grad W) V_j with f_j the requested property
@@ -1119,13 +1367,21 @@ def run_case(case, R_like):
                              'observed': str(e)})
         c('history-aborted-by-exception')
     # ---- driver: binding lines first (stateful), then the point lines
-    lines = list(ses.blines)
+    lines = list(ses.blines) + [r[0] for r in ses.rlines]
     for o in obs:
         lines += o['lines']
     outl = H.run_model('C14', lines)
     if len(outl) != len(lines):
         raise SystemExit('model driver answered %d lines for %d' % (len(outl), len(lines)))
     nb = len(ses.blines)
+    # ---- the flattening of the caller's coordinate arrays into target particles
+    for (ln, exp, where, kind), m in zip(ses.rlines, outl[nb:nb + len(ses.rlines)]):
+        rec['evals'] += 1
+        c('points-layout:%s' % kind)
+        if m != exp:
+            rec['disagreements'].append({'case': short(case), 'where': where,
+                                         'model': m[:400], 'impl': exp[:400]})
+    outl = outl[:nb] + outl[nb + len(ses.rlines):]
     for ln, m, ob, st in zip(ses.blines, outl[:nb], ses.bobs, ses.bstale):
         if cfg['api'] == 'interp':
             want = 'filled=%s evaluated=%s binned=%s result=%d' % (
@@ -1153,6 +1409,10 @@ def run_case(case, R_like):
             rec['evals'] += 1
             if kind == 'order1':
                 cmp_order1(case, where, exp, extra, m, rec, c)
+            elif kind == 'unflatten':
+                if not same_floats(m, exp, 'res '):
+                    rec['disagreements'].append({'case': short(case), 'where': where,
+                                                 'model': m[:400], 'impl': exp[:400]})
             elif m != exp:
                 rec['disagreements'].append({'case': short(case), 'where': where,
                                              'model': m, 'impl': exp})
@@ -1168,6 +1428,28 @@ def run_case(case, R_like):
                          'first_line_model': outl[nb][:120] if len(outl) > nb else None,
                          'first_line_impl': obs[0]['expect'][0][2][:120] if obs[0]['expect'] else None}
     return rec
+
+
+def same_floats(m, exp, prefix):
+    """bit-equal lists of doubles after `prefix`; any NaN equals any NaN (the
+    values are only moved, but Lean's Float.toBits does not keep NaN payloads)"""
+    if not (m.startswith(prefix) and exp.startswith(prefix)):
+        return False
+    a, b = m[len(prefix):].split(','), exp[len(prefix):].split(',')
+    if len(a) != len(b):
+        return False
+    for x, y in zip(a, b):
+        if x == y:
+            continue
+        if x == '_' or y == '_':
+            return False
+        try:
+            fx, fy = H.bits2f(x), H.bits2f(y)
+        except Exception:       # noqa
+            return False
+        if not (math.isnan(fx) and math.isnan(fy)):
+            return False
+    return True
 
 
 def parse_vals(s):
@@ -1336,6 +1618,65 @@ def corpus(cfg):
                        {'op': 'newarrays', 'arrays': again},
                        {'op': 'interp', 'prop': 'r', 'comp': 0},
                        {'op': 'interp', 'prop': 'absent', 'comp': 0}]
+        out.append(case)
+    if cfg['api'] == 'interp':
+        # explicit target points handed over as N-d arrays that are not C
+        # contiguous: result[idx] must be the value at (x[idx], y[idx], z[idx])
+        # (round-2 seed A: `x.ravel(order='K')` created the target particles in
+        # MEMORY order while interpolate un-flattens in logical order).  A
+        # Fortran-ordered 2x3 at construction, then set_interpolation_points
+        # with an axis-permuted 2x2x3 whose x, y, z are laid out differently.
+        rng = random.Random(1403)
+        case = gen_case(rng, cfg, nops=0, prefill=0.0)
+        d = cfg['dim']
+        lo, hi = (0.1, 0.9)
+
+        def pts(shape, layouts):
+            n = int(np.prod(shape))
+            q = {'kind': 'explicit', 'shape': shape, 'layout': layouts}
+            for k, key in enumerate('xyz'):
+                q[key] = [rng.uniform(lo, hi) if k < d else 0.0 for _ in range(n)]
+            return q
+        F = gen_layout(rng, [2, 3], 'F')
+        case['points'] = pts([2, 3], {'x': F, 'y': F, 'z': F})
+        sh = [2, 2, 3]
+        second = pts(sh, {'x': gen_layout(rng, sh, 'P'), 'y': gen_layout(rng, sh, 'SF'),
+                          'z': gen_layout(rng, sh, 'mix')})
+        prop = 'lin' if cfg['method'] == 'order1' else 'p'
+        case['ops'] = [{'op': 'interp', 'prop': prop, 'comp': 0},
+                       {'op': 'newpoints', 'points': second},
+                       {'op': 'interp', 'prop': prop, 'comp': 0}]
+        out.append(case)
+    if cfg['method'] == 'order1' and cfg['api'] == 'interp':
+        # order1 computes the density of EVERY source particle itself, also of
+        # Remote-tagged particles and periodic ghosts (first group, real=False):
+        # arrays built without rho (0.0) are valid input.  (round-2 seed B: the
+        # group ran with real=True, the non-real neighbours kept rho = 0, their
+        # volume m/rho was infinite and interpolate returned NaN near them.)
+        rng = random.Random(1404)
+        case = gen_case(rng, cfg, nops=0, prefill=0.0,
+                        force_tagged=not cfg['periodic'], force_norho=True)
+        d = cfg['dim']
+        n = 8
+        q = {'kind': 'explicit', 'shape': None}
+        for k, key in enumerate('xyz'):
+            if k >= d:
+                q[key] = [0.0] * n
+            elif cfg['periodic']:
+                # next to the periodic boundaries: ghosts within range
+                q[key] = [rng.choice([rng.uniform(0.005, 0.06), rng.uniform(0.94, 0.995)])
+                          if (k == 0 or rng.random() < 0.5) else rng.uniform(0.1, 0.9)
+                          for _ in range(n)]
+            else:
+                q[key] = [rng.uniform(0.2, 0.8) for _ in range(n)]
+        case['points'] = q
+        again = gen_arrays(rng, cfg, case['lin'], case['const'], case['psets'], 0.0, False,
+                           not cfg['periodic'], True)
+        case['ops'] = [{'op': 'interp', 'prop': 'c' if cfg['periodic'] else 'lin', 'comp': 0},
+                       {'op': 'interp', 'prop': 'c' if cfg['periodic'] else 'lin', 'comp': 1},
+                       {'op': 'newarrays', 'arrays': again},
+                       {'op': 'interp', 'prop': 'p', 'comp': 0},
+                       {'op': 'interp', 'prop': 'c', 'comp': d}]
         out.append(case)
     return out
 
